@@ -137,8 +137,7 @@ Proof.
   destruct (coins_sub (g_coins g) (g_dist g)) as [remain|]; [|discriminate].
   destruct (remain_epochs g =? 0); [discriminate|].
   destruct (g_pool g =? 0) eqn:Pl; cbn [negb] in H.
-  2:{ apply Z.eqb_neq in Pl. destruct (nolock_coins (remain_epochs g) remain []); [|discriminate]. inversion H; subst.
-      split; [intros; congruence|eauto]. }
+  2:{ apply Z.eqb_neq in Pl. inversion H; subst. split; [intros; congruence|eauto]. }
   apply Z.eqb_eq in Pl.
   destruct ls as [|l0 lr]; cbn [is_empty] in H.
   - inversion H; subst. split; auto. intros [X|X]; congruence.
